@@ -550,6 +550,7 @@ func (r *Reader) Document() (*model.Document, error) {
 
 	// Track current list being built
 	var currentList *model.List
+	var currentListStyle string
 	var currentListStartY float64
 
 	finalizeList := func() {
@@ -577,7 +578,12 @@ func (r *Reader) Document() (*model.Document, error) {
 
 			// Check if this is a list item
 			if para.IsListItem {
+				// Adjacent lists with different list styles are different lists
+				if currentList != nil && para.StyleName != currentListStyle {
+					finalizeList()
+				}
 				if currentList == nil {
+					currentListStyle = para.StyleName
 					isOrdered := false
 					if r.styleResolver != nil && para.StyleName != "" {
 						ll := r.styleResolver.ResolveListLevel(para.StyleName, para.ListLevel)
